@@ -4,7 +4,7 @@ From Coq Require Import Ascii String List NArith.
 Import ListNotations.
 Require Import Laze.model.Base Laze.model.Env Laze.model.Allow Laze.model.Ninja Laze.model.Ctx
         Laze.model.Resolver Laze.model.Generate Laze.model.Checks Laze.model.Load
-        Laze.proofs.ResolverFacts Laze.proofs.GenerateFacts Laze.proofs.ResolverTotal Laze.proofs.LoadKeys.
+        Laze.proofs.ResolverFacts Laze.proofs.GenerateFacts Laze.proofs.ResolverTotal Laze.proofs.LoadKeys Laze.proofs.LoadProvides.
 Open Scope list_scope.
 
 (* The resolver, for every lookup function, provider map, disabled set, fuel and app: if it
@@ -85,3 +85,24 @@ Print Assumptions C01_resolver_terminates_loaded.
 Theorem C01_loaded_keys_ok : forall t pf bd b, load t pf bd = Ok b -> keys_okb b = true.
 Proof. exact load_keys_ok. Qed.
 Print Assumptions C01_loaded_keys_ok.
+
+(* The provider maps of a loaded bag are sound for every builder (what a context lists as a provider
+   of a name resolves, seen from that context, to a module providing the name): prov_okb is derived
+   from load too, through the parents-first merge of the provider maps with shadowing. *)
+Theorem C01_loaded_prov_ok : forall t pf bd b, load t pf bd = Ok b -> forall builder, prov_okb b builder = true.
+Proof. exact load_prov_ok. Qed.
+Print Assumptions C01_loaded_prov_ok.
+
+(* C01_closure for every project that loads: the only side condition left is about the app itself *)
+Theorem C01_closure_loaded :
+  forall H EV t pf bd b le builder binary select disable cli_env info entries,
+  load t pf bd = Ok b -> app_okb b builder binary = true ->
+  configure_build H EV b le builder binary select disable cli_env = Ok (Built info entries) ->
+  exists rst app',
+    bi_modules info = map m_name (sel rst) /\
+    m_name app' = m_name binary /\
+    m_selects app' = select ++ m_selects binary ++ [Hard (ctx_module_name (bi_builder info))] /\
+    In app' (sel rst) /\
+    forall x, In x (sel rst) -> forall d, In d (m_selects x) -> closed_dep rst d.
+Proof. exact configured_build_closed_loaded. Qed.
+Print Assumptions C01_closure_loaded.
